@@ -844,3 +844,307 @@ Proof.
     intros cl Hcl. destruct (H c (snd cl) Hc) as [Hnz Hle]; [apply in_map; exact Hcl|].
     apply Hlit; assumption.
 Qed.
+
+(* ------------------------------------------------------------------ *)
+(* from a literal token back to the literal *)
+
+Lemma strip_prefix_app : forall p s, strip_prefix p (p ++ s) = Some s.
+Proof.
+  induction p as [|c p IH]; intros s; [reflexivity|].
+  cbn [app strip_prefix]. rewrite Ascii.eqb_refl. apply IH.
+Qed.
+
+Lemma strip_last_app c a : strip_last c (a ++ [c]) = Some a.
+Proof. unfold strip_last. rewrite rev_app_distr. cbn [rev app]. rewrite Ascii.eqb_refl, rev_involutive. reflexivity. Qed.
+
+(* a text that does not begin with p still does not after one more character
+   that does not occur in p *)
+Lemma strip_prefix_none_snoc d : forall p s, Forall (fun c => Ascii.eqb c d = false) p ->
+  strip_prefix p s = None -> strip_prefix p (s ++ [d]) = None.
+Proof.
+  induction p as [|c p IH]; intros s Hp H; [discriminate H|].
+  inversion Hp as [|? ? Hc Hp']; subst. destruct s as [|x s]; cbn [app strip_prefix] in *.
+  - rewrite Hc. reflexivity.
+  - destruct (Ascii.eqb c x); [apply IH; assumption|reflexivity].
+Qed.
+
+Lemma find_char_lt ch : forall s j, find_char ch s = Some j -> (j < length s)%nat.
+Proof.
+  induction s as [|x s IH]; intros j H; [discriminate H|]. cbn [find_char] in H.
+  destruct (Ascii.eqb x ch); [inversion H; cbn; lia|].
+  destruct (find_char ch s) as [k|]; [|discriminate H]. inversion H; subst. specialize (IH k eq_refl). cbn. lia.
+Qed.
+
+(* looking for ch in a name in which a closing brace has been inserted at position k *)
+Lemma find_char_insert ch : Ascii.eqb "}"%char ch = false -> forall nm k,
+  find_char ch (firstn k nm ++ "}"%char :: skipn k nm) =
+  match find_char ch nm with
+  | Some j => if (j <? k)%nat then Some j else Some (S j)
+  | None => None
+  end.
+Proof.
+  intros Hb. induction nm as [|x nm IH]; intros k.
+  - rewrite firstn_nil, skipn_nil. cbn [app find_char]. rewrite Hb. reflexivity.
+  - destruct k as [|k].
+    + cbn [firstn skipn app]. cbn [find_char]. rewrite Hb.
+      destruct (Ascii.eqb x ch); [reflexivity|]. destruct (find_char ch nm); reflexivity.
+    + cbn [firstn skipn app find_char]. destruct (Ascii.eqb x ch); [reflexivity|].
+      rewrite IH. destruct (find_char ch nm) as [j|]; [|reflexivity].
+      change (S j <? S k)%nat with (j <? k)%nat. destruct (j <? k)%nat; reflexivity.
+Qed.
+
+Lemma pos_find_pos ch s j : pos_find ch s = Some j -> (0 < j)%nat.
+Proof. unfold pos_find. destruct (find_char ch s) as [[|k]|]; intros H; inversion H; lia. Qed.
+
+Lemma pos_find_lt ch s j : pos_find ch s = Some j -> (j < length s)%nat.
+Proof.
+  unfold pos_find. destruct (find_char ch s) as [[|k]|] eqn:E; intros H; inversion H; subst.
+  apply (find_char_lt ch s _ E).
+Qed.
+
+Lemma pos_find_insert ch nm k : Ascii.eqb "}"%char ch = false -> (0 < k)%nat ->
+  (forall j, pos_find ch nm = Some j -> (k <= j)%nat) ->
+  pos_find ch (firstn k nm ++ "}"%char :: skipn k nm) = option_map S (pos_find ch nm).
+Proof.
+  intros Hb Hk Hj. unfold pos_find in *. rewrite find_char_insert by exact Hb.
+  destruct (find_char ch nm) as [[|j]|]; cbn [option_map].
+  - destruct (0 <? k)%nat eqn:E; [reflexivity|apply Nat.ltb_ge in E; lia].
+  - specialize (Hj (S j) eq_refl). destruct (S j <? k)%nat eqn:E; [apply Nat.ltb_lt in E; lia|reflexivity].
+  - reflexivity.
+Qed.
+
+Lemma split_point_pos nm k : split_point nm = Some k -> (0 < k < length nm)%nat.
+Proof.
+  unfold split_point.
+  destruct (pos_find "_"%char nm) as [a|] eqn:Ea; destruct (pos_find "^"%char nm) as [b|] eqn:Eb;
+    intros H; inversion H; subst;
+    repeat match goal with
+           | E : pos_find _ _ = Some _ |- _ => pose proof (pos_find_pos _ _ _ E); pose proof (pos_find_lt _ _ _ E); clear E
+           end; lia.
+Qed.
+
+Lemma split_point_insert nm k : split_point nm = Some k ->
+  split_point (firstn k nm ++ "}"%char :: skipn k nm) = Some (S k).
+Proof.
+  intros H. pose proof (split_point_pos nm k H) as [Hk _]. unfold split_point in *.
+  assert (Ha : forall j, pos_find "_"%char nm = Some j -> (k <= j)%nat).
+  { intros j Ej. rewrite Ej in H. destruct (pos_find "^"%char nm); inversion H; lia. }
+  assert (Hb : forall j, pos_find "^"%char nm = Some j -> (k <= j)%nat).
+  { intros j Ej. rewrite Ej in H. destruct (pos_find "_"%char nm); inversion H; lia. }
+  rewrite !pos_find_insert by (try reflexivity; assumption).
+  destruct (pos_find "_"%char nm) as [a|]; destruct (pos_find "^"%char nm) as [b|];
+    cbn [option_map]; inversion H; subst; reflexivity.
+Qed.
+
+Lemma strip_braced pad c mid d : all_space pad = true -> is_space c = false -> is_space d = false ->
+  strip (pad ++ c :: mid ++ [d]) = c :: mid ++ [d].
+Proof.
+  intros Hp Hc Hd. unfold strip. rewrite lstrip_pad by exact Hp. rewrite lstrip_nonspace by exact Hc.
+  change (c :: mid ++ [d]) with ((c :: mid) ++ [d]). apply rstrip_app_nonspace, Hd.
+Qed.
+
+(* the three shapes of a stripped literal token *)
+Lemma lit_token_shapes names l tok : lit_token names l = Some tok ->
+  exists nm, nthZ names (Z.abs l - 1) = Some nm /\ l <> 0 /\
+    ((0 < l /\ tok = lit "{" ++ nm ++ lit "}") \/
+     (l < 0 /\ split_point nm = None /\ tok = lit "\overline{" ++ nm ++ lit "}") \/
+     (l < 0 /\ exists k, split_point nm = Some k /\
+               tok = lit "{\overline{" ++ firstn k nm ++ lit "}" ++ skipn k nm ++ lit "}")).
+Proof.
+  unfold lit_token, littext. intros H. destruct (l =? 0) eqn:E0; [discriminate H|].
+  destruct (nthZ names (Z.abs l - 1)) as [nm|]; [|discriminate H]. exists nm. split; [reflexivity|].
+  split; [lia|]. inversion H as [Ht]. clear H. destruct (0 <? l) eqn:Epos.
+  - left. split; [lia|]. unfold littext_pos.
+    change (lit "           {" ++ nm ++ lit "}") with (lit "           " ++ "{"%char :: nm ++ ["}"%char]).
+    apply strip_braced; reflexivity.
+  - right. unfold littext_neg. destruct (split_point nm) as [k|] eqn:Es.
+    + right. split; [lia|]. exists k. split; [reflexivity|].
+      assert (E : lit "{\overline{" ++ firstn k nm ++ lit "}" ++ skipn k nm ++ lit "}" =
+                  [] ++ "{"%char :: (lit "\overline{" ++ firstn k nm ++ lit "}" ++ skipn k nm) ++ ["}"%char]).
+      { cbn [lit list_ascii_of_string app]. rewrite <- !app_assoc. cbn [app]. reflexivity. }
+      rewrite E. rewrite strip_braced by reflexivity. reflexivity.
+    + left. split; [lia|]. split; [reflexivity|].
+      assert (E : lit "  \overline{" ++ nm ++ lit "}" = lit "  " ++ "\"%char :: (lit "overline{" ++ nm) ++ ["}"%char]).
+      { cbn [lit list_ascii_of_string app]. reflexivity. }
+      rewrite E. rewrite strip_braced by reflexivity. cbn [lit list_ascii_of_string app]. reflexivity.
+Qed.
+
+Lemma nthZ_forallb {A} (p : A -> bool) : forall (l : list A) i x,
+  forallb p l = true -> nthZ l i = Some x -> p x = true.
+Proof.
+  intros l i x H E. rewrite forallb_forall in H. apply H. eapply nthZ_In; eauto.
+Qed.
+
+Lemma strip_prefix_cons c p s : strip_prefix (c :: p) (c :: s) = strip_prefix p s.
+Proof. cbn [strip_prefix]. rewrite Ascii.eqb_refl. reflexivity. Qed.
+
+Lemma decode_pos nm : starts_overline nm = false ->
+  decode_lit (lit "{" ++ nm ++ lit "}") = Some (true, nm).
+Proof.
+  intros H. unfold decode_lit.
+  assert (E1 : strip_prefix (lit "{\overline{") (lit "{" ++ nm ++ lit "}") = None).
+  { change (lit "{\overline{") with ("{"%char :: lit "\overline{").
+    change (lit "{" ++ nm ++ lit "}") with ("{"%char :: nm ++ ["}"%char]). rewrite strip_prefix_cons.
+    unfold starts_overline in H. apply strip_prefix_none_snoc.
+    - repeat constructor.
+    - destruct (strip_prefix (lit "\overline{") nm); [discriminate H|reflexivity]. }
+  rewrite E1.
+  assert (E2 : strip_prefix (lit "\overline{") (lit "{" ++ nm ++ lit "}") = None) by reflexivity.
+  rewrite E2. rewrite strip_prefix_app. cbn [lit list_ascii_of_string]. rewrite strip_last_app. reflexivity.
+Qed.
+
+Lemma decode_neg_plain nm : decode_lit (lit "\overline{" ++ nm ++ lit "}") = Some (false, nm).
+Proof.
+  unfold decode_lit.
+  assert (E1 : strip_prefix (lit "{\overline{") (lit "\overline{" ++ nm ++ lit "}") = None) by reflexivity.
+  rewrite E1, strip_prefix_app. cbn [lit list_ascii_of_string]. rewrite strip_last_app. reflexivity.
+Qed.
+
+Lemma decode_neg_split nm k : split_point nm = Some k ->
+  decode_lit (lit "{\overline{" ++ firstn k nm ++ lit "}" ++ skipn k nm ++ lit "}") = Some (false, nm).
+Proof.
+  intros H. unfold decode_lit. rewrite strip_prefix_app.
+  replace (firstn k nm ++ lit "}" ++ skipn k nm ++ lit "}")
+    with ((firstn k nm ++ "}"%char :: skipn k nm) ++ ["}"%char])
+    by (cbn [lit list_ascii_of_string app]; rewrite <- app_assoc; reflexivity).
+  rewrite strip_last_app, (split_point_insert nm k H).
+  pose proof (split_point_pos nm k H) as [_ Hlt].
+  assert (Hl : length (firstn k nm) = k) by (apply firstn_length_le; lia).
+  rewrite skipn_app, firstn_app, Hl, Nat.sub_diag, skipn_all2, firstn_all2 by lia.
+  cbn [skipn firstn app]. rewrite Ascii.eqb_refl, app_nil_r, firstn_skipn. reflexivity.
+Qed.
+
+(* THE inverse: a literal token decodes to the polarity and the name of its literal *)
+Lemma decode_lit_token names l tok : latex_names_decodable names = true ->
+  lit_token names l = Some tok ->
+  exists pl, lit_name names l = Some pl /\ decode_lit tok = Some pl /\
+             exists ch r, tok = ch :: r /\ is_digit ch = false.
+Proof.
+  intros Hn H. destruct (lit_token_shapes names l tok H) as (nm & En & Hnz & Hs).
+  unfold lit_name. rewrite En. destruct (l =? 0) eqn:E0; [lia|].
+  exists (0 <? l, nm). split; [reflexivity|].
+  destruct Hs as [[Hl ->]|[(Hl & Hsp & ->)|(Hl & k & Hsp & ->)]].
+  - replace (0 <? l) with true by lia. split; [|eexists _, _; split; reflexivity].
+    apply decode_pos. unfold latex_names_decodable in Hn.
+    pose proof (nthZ_forallb _ names _ nm Hn En) as Hd. apply negb_true_iff in Hd. exact Hd.
+  - replace (0 <? l) with false by lia. split; [apply decode_neg_plain|eexists _, _; split; reflexivity].
+  - replace (0 <? l) with false by lia. split; [apply decode_neg_split, Hsp|eexists _, _; split; reflexivity].
+Qed.
+
+(* lists of literal tokens *)
+Lemma decode_lits names : latex_names_decodable names = true -> forall c ts,
+  all_some (map (lit_token names) c) = Some ts ->
+  exists pls, all_some (map (lit_name names) c) = Some pls /\ all_some (map decode_lit ts) = Some pls /\
+              Forall (fun t => exists ch r, t = ch :: r /\ is_digit ch = false) ts.
+Proof.
+  intros Hn. induction c as [|l c IH]; intros ts H.
+  - inversion H. exists []. repeat split; constructor.
+  - cbn [map all_some] in H. destruct (lit_token names l) as [tok|] eqn:Et; [|discriminate H].
+    destruct (all_some (map (lit_token names) c)) as [ts'|] eqn:Ec; [|discriminate H]. inversion H; subst ts.
+    destruct (decode_lit_token names l tok Hn Et) as (pl & E1 & E2 & E3).
+    destruct (IH ts' eq_refl) as (pls & F1 & F2 & F3).
+    exists (pl :: pls). cbn [map all_some]. rewrite E1, F1, E2, F2. repeat split. constructor; assumption.
+Qed.
+
+(* coefficients *)
+Lemma span_digits_app : forall d t, forallb is_digit d = true ->
+  (exists ch r, t = ch :: r /\ is_digit ch = false) -> span_digits (d ++ t) = (d, t).
+Proof.
+  induction d as [|c d IH]; intros t Hd Ht.
+  - destruct Ht as (ch & r & -> & Hch). cbn [app span_digits]. rewrite Hch. reflexivity.
+  - cbn [forallb] in Hd. apply andb_true_iff in Hd as [Hc Hd].
+    cbn [app span_digits]. rewrite Hc, (IH t Hd Ht). reflexivity.
+Qed.
+
+Lemma coef_text_digits c : forallb is_digit (coef_text c) = true.
+Proof.
+  unfold coef_text. destruct (1 <? c) eqn:E; [|reflexivity].
+  rewrite print_Z_nonneg by lia. pose proof (print_nonneg_all_digits c) as H.
+  unfold all_digits in H. apply andb_true_iff in H as [_ H]. exact H.
+Qed.
+
+Lemma decode_terms : forall cs ts pls, all_some (map decode_lit ts) = Some pls ->
+  Forall (fun t => exists ch r, t = ch :: r /\ is_digit ch = false) ts ->
+  all_some (map decode_term (map (fun ct => coef_text (fst ct) ++ snd ct) (combine cs ts))) =
+  Some (combine (map coef_text cs) pls).
+Proof.
+  induction cs as [|c cs IH]; intros ts pls H Hts; [reflexivity|].
+  destruct ts as [|t ts]; [inversion H; reflexivity|]. cbn [map all_some] in H.
+  destruct (decode_lit t) as [pl|] eqn:Et; [|discriminate H].
+  destruct (all_some (map decode_lit ts)) as [pls'|] eqn:Ets; [|discriminate H]. inversion H; subst pls.
+  inversion Hts as [|? ? Ht Hts']; subst.
+  cbn [combine map fst snd all_some]. unfold decode_term at 1.
+  rewrite span_digits_app by (try apply coef_text_digits; exact Ht). rewrite Et.
+  rewrite (IH ts pls' Ets Hts'). reflexivity.
+Qed.
+
+Lemma clause_lrow_literals names c r : latex_names_decodable names = true ->
+  clause_lrow names c = Some r ->
+  exists lr, clause_litrow names c = Some lr /\ decode_lrow r = Some lr.
+Proof.
+  intros Hn H. unfold clause_lrow, clause_litrow in *. destruct c as [|l c].
+  - inversion H. exists LSquare. split; reflexivity.
+  - destruct (all_some (map (lit_token names) (l :: c))) as [ts|] eqn:E; [|discriminate H].
+    inversion H; subst r. destruct (decode_lits names Hn (l :: c) ts E) as (pls & E1 & E2 & _).
+    exists (LClause pls). rewrite E1. cbn [decode_lrow]. rewrite E2. split; reflexivity.
+Qed.
+
+Lemma constraint_lrow_literals names c r : latex_names_decodable names = true ->
+  constraint_lrow names c = Some r ->
+  exists lr, constraint_litrow names c = Some lr /\ decode_lrow r = Some lr.
+Proof.
+  intros Hn H. unfold constraint_lrow, constraint_litrow in *.
+  rewrite <- (map_map snd (lit_token names)) in H. rewrite <- (map_map snd (lit_name names)).
+  destruct (all_some (map (lit_token names) (map snd (pb_terms c)))) as [ts|] eqn:E; [|discriminate H].
+  inversion H; subst r. destruct (decode_lits names Hn _ ts E) as (pls & E1 & E2 & E3).
+  rewrite E1. cbn [option_map]. eexists. split; [reflexivity|].
+  cbn [decode_lrow]. rewrite (decode_terms _ ts pls E2 E3). cbn [option_map].
+  rewrite map_map. reflexivity.
+Qed.
+
+Lemma all_some_decode {A B C} (f : A -> option B) (g : A -> option C) (d : B -> option C) :
+  (forall x y, f x = Some y -> exists z, g x = Some z /\ d y = Some z) ->
+  forall l ys, all_some (map f l) = Some ys ->
+  exists zs, all_some (map g l) = Some zs /\ map d ys = map Some zs.
+Proof.
+  intros Hf. induction l as [|x l IH]; intros ys H.
+  - inversion H. exists []. split; reflexivity.
+  - cbn [map all_some] in H. destruct (f x) as [y|] eqn:Ex; [|discriminate H].
+    destruct (all_some (map f l)) as [ys'|] eqn:El; [|discriminate H]. inversion H; subst ys.
+    destruct (Hf x y Ex) as (z & Ez & Dz). destruct (IH ys' eq_refl) as (zs & Ezs & Dzs).
+    exists (z :: zs). cbn [map all_some]. rewrite Ez, Ezs, Dz, Dzs. split; reflexivity.
+Qed.
+
+Lemma formula_lrows_literals names f rows : latex_names_decodable names = true ->
+  formula_lrows names f = Some rows ->
+  exists lrows, formula_litrows names f = Some lrows /\ map decode_lrow rows = map Some lrows.
+Proof.
+  intros Hn H. destruct f as [n F|n C]; cbn [formula_lrows formula_litrows] in *.
+  - apply (all_some_decode (clause_lrow names) (clause_litrow names) decode_lrow); [|exact H].
+    intros c r Hc. apply clause_lrow_literals; assumption.
+  - apply (all_some_decode (constraint_lrow names) (constraint_litrow names) decode_lrow); [|exact H].
+    intros c r Hc. apply constraint_lrow_literals; assumption.
+Qed.
+
+(* the rows of the LaTeX text, read as literals *)
+Theorem latex_rows_literals_proved names split compact f t :
+  latex_names_ok names = true -> latex_names_decodable names = true ->
+  print_latex names split compact f = Some t ->
+  exists rows lrows,
+    rows_of_latex (is_opb f) t = (negb (nonempty rows), rows) /\
+    formula_litrows names f = Some lrows /\
+    map decode_lrow rows = map Some lrows.
+Proof.
+  intros Hn Hd H. destruct (latex_rows_proved names split compact f t Hn H) as (rows & E1 & E2).
+  destruct (formula_lrows_literals names f rows Hd E1) as (lrows & F1 & F2).
+  exists rows, lrows. repeat split; assumption.
+Qed.
+
+(* one literal row per clause / constraint, with as many literals as the clause / constraint has *)
+Lemma formula_litrows_length names f lrows : formula_litrows names f = Some lrows ->
+  length lrows = length (constraints f).
+Proof.
+  destruct f as [n F|n C]; cbn [formula_litrows constraints]; intros H.
+  - rewrite map_length. symmetry. eapply all_some_length; eauto.
+  - symmetry. eapply all_some_length; eauto.
+Qed.
